@@ -71,6 +71,15 @@ def gen(seed, tier):
             out.append(f"zip {arr(x)} {arr(y, base=1000)}")
             out.append(f"broadcast_to {arr(x)} {lst(y)}")
         out.append(f"broadcast_arrays L3 {arr(s1)} {arr(s2, base=1000)} {arr([1], base=5000)}")
+    # targets of 1024 and more elements with a stretched axis INSIDE a kept axis and another stretched / added axis
+    # outside it (seeded change C03n: an axis-by-axis block copy for large outputs repeated sub-blocks)
+    for s1, s2 in [([16, 1], [8, 16, 16]), ([1, 12, 1], [10, 12, 10]), ([4, 1, 5, 1], [4, 6, 5, 9]), ([6, 1, 20], [1, 15, 1]), ([64, 1], [64, 32]),
+                   ([32], [8, 8, 32]), ([16, 1, 1], [16, 8, 8]), ([1, 33, 1], [33, 1, 3]), ([2, 1, 3, 1], [7, 2, 5, 3, 6])]:
+        out.append(f"broadcast_to {arr(s1)} {lst(s2)}")
+        out.append(f"broadcast {arr(s1)} {arr(s2, base=5000)}")
+        out.append(f"broadcast {arr(s2, base=5000)} {arr(s1)}")
+        out.append(f"zip {arr(s2, base=5000)} {arr(s1)}")
+        out.append(f"broadcast_arrays L2 {arr(s1)} {arr(s2, base=5000)}")
     n = 1000 if tier == "quick" else 20000
     for _ in range(n):
         s1 = rand_shape(rng, 4)
